@@ -86,6 +86,7 @@ func runC14(c *Ctx, r *Rec) {
 		})
 		return e
 	}
+	checkReceiverWrites(c, r, "D1-receiver-writes-persist", mp)
 	// transitive "mutating" closure over receiver calls
 	mutating := map[string]bool{}
 	for iter := 0; iter < 5; iter++ {
@@ -268,6 +269,14 @@ func runC14(c *Ctx, r *Rec) {
 	r.floor("D1-effect-signature", 11)
 	r.floor("D1-len", 2)
 
+	for _, b := range [][2]string{{"GetValues", "GetValue"}, {"RemoveValues", "RemoveValue"}} {
+		if fd := ms[b[0]]; fd != nil {
+			bad := bulkFold(c, info, fd, b[1], true)
+			r.check(bad == "", "D1-bulk-fold", c.fdName(fd), c.pos(fd.Pos()), "applies "+b[1]+" to every requested key, in order, and records each result", bad)
+		}
+	}
+	r.floor("D1-bulk-fold", 2)
+
 	// ---- D2 constructors
 	fa := c.flow()
 	cms := c.methodsOf(cls)
@@ -299,6 +308,14 @@ func runC14(c *Ctx, r *Rec) {
 				bad = fmt.Sprintf("%d loops, required one loop over the source", len(loops))
 			} else if s := entryStoreOK(info, fd, loops[0]); s != "" {
 				bad = s
+			} else if fs, isFor := loops[0].(*ast.ForStmt); isFor && fs.Post == nil {
+				if _, s := coveringLoop(c, info, loops[0]); s != "" {
+					bad = s
+				}
+			} else if _, isRange := loops[0].(*ast.RangeStmt); isRange {
+				if _, s := coveringLoop(c, info, loops[0]); s != "" {
+					bad = s
+				}
 			}
 		}
 		r.check(bad == "", "D2-constructor-copies", construct, c.pos(fd.Pos()), "made in the call; each iteration stores the visited entry's key and value", bad)
@@ -380,7 +397,7 @@ func runC14(c *Ctx, r *Rec) {
 			checkLoops(c, r, "D4-loop-progress", m[name], nil)
 		}
 	}
-	r.floor("D4-loop-progress", 8)
+	r.floor("D4-loop-progress", 1)
 }
 
 // resolveInit follows single-definition local variables to their initialisers.
